@@ -19,6 +19,15 @@
     ((uint32_t)((const uint8_t *)(p))[0] << 24) | ((uint32_t)((const uint8_t *)(p))[1] << 16) | \
     ((uint32_t)((const uint8_t *)(p))[2] << 8)  | ((uint32_t)((const uint8_t *)(p))[3]))
 
+/* the same loads of the values the bytes had on function entry: CBMC's
+ * __CPROVER_old() accepts only simple lvalue expressions (no |, no ?:) */
+#define VO(e) __CPROVER_old(e)
+#define VBE64_OLD(p) ( \
+    ((uint64_t)VO(((const uint8_t *)(p))[0]) << 56) | ((uint64_t)VO(((const uint8_t *)(p))[1]) << 48) | \
+    ((uint64_t)VO(((const uint8_t *)(p))[2]) << 40) | ((uint64_t)VO(((const uint8_t *)(p))[3]) << 32) | \
+    ((uint64_t)VO(((const uint8_t *)(p))[4]) << 24) | ((uint64_t)VO(((const uint8_t *)(p))[5]) << 16) | \
+    ((uint64_t)VO(((const uint8_t *)(p))[6]) << 8)  | ((uint64_t)VO(((const uint8_t *)(p))[7])))
+
 /* spread the 32 bits of x to the even bit positions of a 64-bit word */
 #define VSPREAD_1(x) ((((uint64_t)(uint32_t)(x)) | (((uint64_t)(uint32_t)(x)) << 16)) & 0x0000FFFF0000FFFFULL)
 #define VSPREAD_2(x) ((VSPREAD_1(x) | (VSPREAD_1(x) << 8)) & 0x00FF00FF00FF00FFULL)
